@@ -438,12 +438,19 @@ struct G
             }
             case 5: {
                 std::string n = "arr" + std::to_string(uniq++);
-                if (rng.chance(0.5)) {
+                int shape = rng.below(10);
+                if (shape < 4) {
                     int t = tag();
                     add(var("int " + n + "[4] = { " + std::to_string(t) + ", 1, 2, 3 };", n, {t}));
-                } else
+                } else if (shape < 7)
                     add(var("int " + n + "[4];", n));
+                else  // a dimension given as a type (the grammar keeps a process-global nesting counter for these)
+                    add(var("int " + n + "[int[0,3]];", n));
                 sc.arrays.push_back(n);
+                if (rng.chance(0.25)) {
+                    std::string m2 = "mat" + std::to_string(uniq++);
+                    add(var(rng.chance(0.5) ? "int " + m2 + "[int[0,1]][2];" : "bool " + m2 + "[int[0,1]][int[0,2]][2];", m2));
+                }
                 break;
             }
             case 6: {
@@ -813,6 +820,7 @@ struct G
         return t;
     }
 
+    int chains_made{0};
     void gen_system(Model& m, const Scope& gsc)
     {
         int pn = 0;
@@ -879,6 +887,38 @@ struct G
                     continue;
                 m.insts.push_back(in);
                 m.system.push_back(in.name);
+            }
+        }
+        // chains: an instance that instantiates another instance (binding its free parameter, keeping it free under a
+        // new name, or - for a full instance - with an empty argument list); the process is built from the end of the chain
+        if (cfg.partial_inst) {
+            int nchains = rng.chance(0.45) ? rng.range(1, 3) : 0;
+            for (int c = 0; c < nchains && !m.insts.empty(); ++c) {
+                const MInst base = m.insts[rng.below((uint32_t)m.insts.size())];
+                MInst in;
+                in.name = "C" + std::to_string(c);
+                in.templ = base.templ;
+                in.base = base.name;
+                for (auto& fp : base.free_params) {
+                    MArg a;
+                    if (cfg.free_process_params && rng.chance(0.4)) {
+                        MParam np = fp;
+                        np.name = fp.name + "c";
+                        np.text = fp.text.substr(0, fp.text.rfind(' ')) + " " + np.name;
+                        in.free_params.push_back(np);
+                        a.text = a.ident = np.name;
+                    } else
+                        a.text = std::to_string(rng.range(0, 1));
+                    in.args.push_back(a);
+                }
+                m.insts.push_back(in);
+                // the chained instance replaces its base in the system line, or runs next to it
+                auto it = std::find(m.system.begin(), m.system.end(), base.name);
+                if (it != m.system.end() && rng.chance(0.5))
+                    *it = in.name;
+                else
+                    m.system.push_back(in.name);
+                ++chains_made;
             }
         }
         if (m.system.empty() && !m.templs.empty()) {
